@@ -49,6 +49,13 @@ fn pin_one_cpu() -> Option<[u64; 16]> {
     Some(old)
 }
 
+/// length of the scripted history (1 500; 400 000 for the `longlife` scenarios)
+static STEPS_NOW: std::sync::atomic::AtomicU32 = std::sync::atomic::AtomicU32::new(STEPS);
+
+fn steps() -> u32 {
+    STEPS_NOW.load(std::sync::atomic::Ordering::Relaxed)
+}
+
 const NKEYS: u32 = 24;
 const STEPS: u32 = 1500;
 const TTL_TICKS: u64 = 10;
@@ -106,10 +113,10 @@ enum Step {
     Adv,
 }
 
-fn script() -> Vec<Step> {
+fn script(steps: u32) -> Vec<Step> {
     let mut g = Lcg(0x5eed_0017);
     let mut out = Vec::new();
-    for i in 0..STEPS {
+    for i in 0..steps {
         let r = g.next();
         let k = g.next() % NKEYS;
         out.push(match r % 20 {
@@ -207,7 +214,7 @@ where
         let mut m = Ref { m: HashMap::new(), now: 0, ttl: if conf == Conf::Ttl { Some(TTL_TICKS) } else { None } };
         let mut vid = 0u32;
         let mut viols: Vec<Violation> = Vec::new();
-        for (i, st) in script().into_iter().enumerate() {
+        for (i, st) in script(steps()).into_iter().enumerate() {
             if viols.len() > 4 {
                 break;
             }
@@ -296,7 +303,7 @@ where
             }
         }
     }
-    Scenario { name, steps: STEPS as u64, viol: out }
+    Scenario { name, steps: steps() as u64, viol: out }
 }
 
 fn unsync_scn<K, V>(tyname: &str, conf: Conf, mk: fn(u32) -> K, mv: fn(u32) -> V, idx_of_v: fn(&V) -> u32, idx_of_k: fn(&K) -> u32) -> Scenario
@@ -328,7 +335,7 @@ where
         let mut m = Ref { m: HashMap::new(), now: 0, ttl: if conf == Conf::Ttl { Some(TTL_TICKS) } else { None } };
         let mut vid = 0u32;
         let mut viols: Vec<Violation> = Vec::new();
-        for (i, st) in script().into_iter().enumerate() {
+        for (i, st) in script(steps()).into_iter().enumerate() {
             if viols.len() > 4 {
                 break;
             }
@@ -406,7 +413,7 @@ where
             }
         }
     }
-    Scenario { name, steps: STEPS as u64, viol: out }
+    Scenario { name, steps: steps() as u64, viol: out }
 }
 
 // ---- the key / value types
@@ -447,6 +454,33 @@ fn ki_arc(k: &Arc<str>) -> u32 {
     k.rsplit('-').next().unwrap().parse().unwrap()
 }
 fn k_unit(_i: u32) {}
+
+/// A key with user-written `Eq` and `Hash` (consistent with each other, case-insensitive):
+/// equal keys need not be identical, and every call of `k_ci` spells the key differently.
+#[derive(Clone, Debug)]
+pub struct CiKey(String);
+impl PartialEq for CiKey {
+    fn eq(&self, o: &Self) -> bool {
+        self.0.eq_ignore_ascii_case(&o.0)
+    }
+}
+impl Eq for CiKey {}
+impl Hash for CiKey {
+    fn hash<H: std::hash::Hasher>(&self, h: &mut H) {
+        for b in self.0.bytes() {
+            h.write_u8(b.to_ascii_lowercase());
+        }
+    }
+}
+fn k_ci(i: u32) -> CiKey {
+    static SPELL: std::sync::atomic::AtomicU32 = std::sync::atomic::AtomicU32::new(0);
+    let n = SPELL.fetch_add(1, std::sync::atomic::Ordering::Relaxed);
+    let base = format!("key-{i}");
+    CiKey(base.chars().enumerate().map(|(j, c)| if (n >> (j % 3)) & 1 == 1 { c.to_ascii_uppercase() } else { c }).collect())
+}
+fn ki_ci(k: &CiKey) -> u32 {
+    k.0.rsplit('-').next().unwrap().parse().unwrap()
+}
 
 fn v_u32(i: u32) -> u32 {
     i
@@ -565,6 +599,22 @@ pub fn scenarios_1cpu() -> Vec<Scenario> {
     out
 }
 
+/// One cache object that lives through 400 000 operations (thousands of maintenance runs,
+/// invalidate_all calls and clock advances; every log wraps around many times; tens of
+/// thousands of recorded lookups, i.e. many aging steps of the popularity sketch).
+pub fn scenarios_longlife() -> Vec<Scenario> {
+    let mut out = Vec::new();
+    *PREFIX.lock().unwrap() = "typeslong";
+    STEPS_NOW.store(400_000, std::sync::atomic::Ordering::Relaxed);
+    for conf in [Conf::Roomy, Conf::RoomyWeighed, Conf::Ttl] {
+        out.push(sync_scn::<u64, u32>("u64-u32", conf, k_u64, v_u32, vi_u32, ki_u64));
+        out.push(unsync_scn::<u64, u32>("u64-u32", conf, k_u64, v_u32, vi_u32, ki_u64));
+    }
+    STEPS_NOW.store(STEPS, std::sync::atomic::Ordering::Relaxed);
+    *PREFIX.lock().unwrap() = "types";
+    out
+}
+
 pub fn scenarios() -> Vec<Scenario> {
     let _ = (k_unit, v_opt);
     let mut out = Vec::new();
@@ -583,6 +633,8 @@ pub fn scenarios() -> Vec<Scenario> {
         out.push(unsync_scn::<Arc<str>, Arc<Vec<u64>>>("ArcStr-ArcVec", conf, k_arc, v_arc, vi_arc, ki_arc));
         out.push(sync_scn::<u64, [u32; 64]>("u64-array", conf, k_u64, v_big, vi_big, ki_u64));
         out.push(unsync_scn::<u64, [u32; 64]>("u64-array", conf, k_u64, v_big, vi_big, ki_u64));
+        out.push(sync_scn::<CiKey, String>("CaseInsensitiveKey-String", conf, k_ci, v_string, vi_string, ki_ci));
+        out.push(unsync_scn::<CiKey, String>("CaseInsensitiveKey-String", conf, k_ci, v_string, vi_string, ki_ci));
         out.push(sync_scn::<(u16, i64), u32>("tuple-u32", conf, k_pair, v_u32, vi_u32, ki_pair));
         out.push(unsync_scn::<(u16, i64), u32>("tuple-u32", conf, k_pair, v_u32, vi_u32, ki_pair));
     }
